@@ -5,8 +5,13 @@ Definition code_not_once : N := 20%N.
 Definition code_marker : N := 21%N.
 Definition code_dry_rate : N := 22%N.
 Definition code_stress_forwarding : N := 23%N.
+Definition code_stale_dry_flag : N := 24%N.
+Definition code_marker_while_off : N := 25%N.
 
 Definition judge_dry (x : out) (sp : span) (keep : bool) : codes :=
+  (* forwarded exactly as if DryRun were off: no marker and a final (multiplied) rate - the forwarding side
+     did not see the DryRun value in force *)
+  if match o_dry x with None => negb (Z.eqb (o_final x) 0) | Some _ => false end then [code_stale_dry_flag] else
   (if option_eqb Bool.eqb (o_dry x) (Some keep) then [] else [code_marker]) ++
   (if N.eqb (maxone (o_rate x)) (maxone (s_rate sp)) && Z.eqb (o_final x) 0 then [] else [code_dry_rate]).
 
@@ -17,7 +22,10 @@ Definition one_for (outs : list out) (sp : span) (bad : N) (k : out -> codes) : 
   end.
 
 Definition judge05 (dec sdec : N -> N * bool * string) (b : book) (o : op) (outs : list out) : codes :=
-  if negb (c_dry (b_cfg b)) then [] else
+  if negb (c_dry (b_cfg b)) then
+    (* DryRun not in force: nothing may carry the marker *)
+    flat_map (fun x => match o_dry x with Some _ => [code_marker_while_off] | None => [] end) outs
+  else
   match o with
   | Span sp =>
       match span_path b sp false with
